@@ -24,8 +24,12 @@ use uuid::Uuid;
 pub struct PA {
     pub value: i32,
 }
+// PB's reflection type path is NOT what std::any::type_name says (as for any component with a
+// #[type_path] of its own, a generic one over glam types, or one declared inside a function body):
+// receivers resolve components by type path, so every sender must name them by type path (S30)
 #[derive(Component, Reflect, Default, Clone, PartialEq, Debug)]
 #[reflect(Component)]
+#[type_path = "bsh::renamed"]
 pub struct PB(pub u32);
 
 pub const T_A: u32 = 0;
@@ -289,7 +293,11 @@ fn sys_name(full: &str) -> Option<String> {
         }
     }
     if let Some(rest) = full.strip_prefix("bevy_sync::lib_priv::sync_detect<") {
+        // a system is named after std::any::type_name of its type parameter, not its reflection type path
         let ty = rest.trim_end_matches('>');
+        if ty == std::any::type_name::<PB>() {
+            return Some(format!("Detect:{}", T_B));
+        }
         return tyid_of_path(ty).map(|t| format!("Detect:{}", t));
     }
     if let Some(rest) = full.strip_prefix("bsh::proto::app_system_") {
@@ -921,6 +929,16 @@ impl Session {
                 let world = self.peers[p].app.world_mut();
                 world.remove_resource::<NetcodeServerTransport>();
                 world.remove_resource::<NetcodeClientTransport>();
+            }
+            "kick" => {
+                // the host drops the connection of peer q (RenetServer::disconnect): q's renet client learns it
+                // from the network, its transport resource stays in its world
+                let q: usize = w[1].parse().unwrap();
+                let cid = self.peers[q].client_id;
+                let world = self.peers[p].app.world_mut();
+                if let (Some(cid), Some(mut server)) = (cid, world.get_resource_mut::<RenetServer>()) {
+                    server.disconnect(bevy_renet::renet::ClientId::from_raw(cid));
+                }
             }
             other => panic!("unknown op {}", other),
         }
